@@ -5,3 +5,4 @@ import GwcsProofs.C14
 import GwcsProofs.C03
 import GwcsProofs.C13
 import GwcsProofs.C15
+import GwcsProofs.C17
